@@ -113,6 +113,39 @@ class C01Check(ExplainerCheck):
     oracle_classes = (C01Oracle,)
     design_ref = "DESIGN.md section 4, C01"
 
+    def gen(self, seed, tier, run_index):
+        if run_index % 16 == 15:
+            # "whatever the imputer, storage": a deployment on the real TreeStorage / TreeImputer with drifting data
+            from .checks_tree import gen_plan as gen_tree_plan
+            rng = seeds.run_rng(seed, self.prop + "/tree", tier, run_index)
+            plan = gen_tree_plan(rng, self.prop)
+            plan["config"]["explainer"] = "sage"
+            for op in plan["ops"]:
+                if op["op"] == "update" and op["t"] > 8 and op["t"] % 2 == 0:
+                    op["op"] = "explain"
+            return plan
+        return super().gen(seed, tier, run_index)
+
+    def run(self, plan):
+        if plan.get("kind") == "tree":
+            from .checks_tree import run_tree_plan
+            res = run_tree_plan(plan, c01=True)
+            if not res["ok"] and res["violation"].get("property") != "C01":
+                # a TreeStorage / TreeImputer problem is C19's to report
+                res = dict(res, ok=True, violation=None, aborted="foreign: " + res["violation"]["oracle"])
+            return res
+        return super().run(plan)
+
+    def reductions(self, plan):
+        if plan.get("kind") == "tree":
+            return []
+        return super().reductions(plan)
+
+    def sample_of(self, plan, res):
+        if plan.get("kind") == "tree":
+            return {"config": plan["config"], "n_ops": len(plan["ops"])}
+        return super().sample_of(plan, res)
+
 
 class C02Check(ExplainerCheck):
     prop = "C02"
